@@ -230,6 +230,8 @@ def bounded_for(c, tier, seed):
 
 # ---------------------------------------------------------------- the per-author bypass map (an input of the contract)
 def extra(rep, tier, seed, budget):
+    from bounded import userdict as _ud
+    _ud.integrate(rep)
     from specs import shared_facts as _sf
     _sf.add_facts(rep, _sf.option_defaults(), 'option registry defaults')
     # job.author_bypass is an input above; the map it reads is built by settings.PrAuthorsOptions.deserialize,
